@@ -222,34 +222,64 @@ def run(ctx):
     ctx.ob("COLUMNS", "separators", {"\r\n", "\t", ","} <= r_seps and {"\t", ","} <= w_chars, f"reader splits on {sorted(r_seps)}; writer pushes characters {sorted(w_chars)}", fb.file, fb.line)
 
     # ---- LABEL
-    w_tpl = [t for t in fmt.templates_of(ctx.wire, "patchlist::PatchList::to_string") if "Patch-Length" in (t.template or "")]
     r_lits = set()
     for p in Explorer(fb).explore():
         for (_bb, callee, args, _res) in p.events:
             if callee.split("::")[-1] in ("find", "split_once", "strip_prefix") and len(args) > 1 and isinstance(args[1], tuple) and args[1][0] == "ks" and "Patch-Length" in args[1][1]:
                 r_lits.add(args[1][1])
-    if len(w_tpl) != 1:
-        ctx.fail_closed("LABEL", "X-Patch-Length template not found in to_string")
+    # the text to_string builds, as string pieces read off the MIR (format! / push_str / push in any mix): the piece
+    # that ends with the label, the formatted number after it, and what follows the number
+    from ..strx import StrX
+
+    tsx = StrX(tb)
+    tpcs = tsx.returned()
+    li = next((i for i, p_ in enumerate(tpcs) if p_[0] == "lit" and "Patch-Length" in p_[1]), None)
+    if li is None or li + 1 >= len(tpcs):
+        ctx.fail_closed("LABEL", "X-Patch-Length label not found in the text to_string returns")
     else:
-        t = w_tpl[0]
-        w_label = t.pieces[0][1] if t.pieces and t.pieces[0][0] == "lit" else None
-        ctx.ob("LABEL", "literal-agreement", r_lits == {w_label} and w_label == LABEL, f"writer label {w_label!r}; reader searches for {sorted(r_lits)}", tb.file, t.line)
-        ctx.ob("LABEL", "line-terminator", len(t.pieces) == 3 and t.pieces[2] == ("lit", "\r\n") and "\r\n" in r_seps, f"writer template {t.template!r}; the reader cuts the number at CRLF", tb.file, t.line, trivial=True)
-        arg = (t.pieces[1][3] or "").strip() if len(t.pieces) > 1 and t.pieces[1][0] == "arg" else None
-        # the formatted local accumulates patch.length
+        lit_ = tpcs[li][1]
+        w_label = lit_[lit_.rindex("X-Patch-Length") :] if "X-Patch-Length" in lit_ else None
+        num = tpcs[li + 1]
+        after = tpcs[li + 2][1] if li + 2 < len(tpcs) and tpcs[li + 2][0] == "lit" else None
+        ctx.ob("LABEL", "literal-agreement", r_lits == {w_label} and w_label == LABEL, f"writer label {w_label!r}; reader searches for {sorted(r_lits)}", tb.file, tb.line)
+        ctx.ob("LABEL", "line-terminator", num[0] in ("arg", "opaque") and (after or "").startswith("\r\n") and "\r\n" in r_seps, f"the writer follows the number with {after!r}; the reader cuts the number at CRLF", tb.file, tb.line, trivial=True)
+        nop = num[3] if num[0] == "arg" else (num[1] if num[0] == "opaque" else None)
+        tix_ = index_of(tb)
+        # the formatted value: a local accumulating patch.length in a loop, or the result of sum() / fold()
         acc_ok = False
-        names = tb.local_names()
+        arg = None
+        nl = None
+        if nop is not None:
+            dn_ = derive(tix_, nop)
+            names = tb.local_names()
+            cand = [l_ for l_ in dn_.locals if names.get(l_) and tix_.single_def(l_) is None and not (1 <= l_ <= tb.argc)]
+            nl = cand[0] if len(cand) == 1 else None
+            arg = names.get(nl) if nl is not None else None
+            if any(c_.split("::")[-1] in ("sum", "fold") for c_ in dn_.calls) and "patches" in dn_.names:
+                for cl_ in prog.closures_of(tb.name):
+                    d0_ = derive(index_of(cl_), {"c": {"l": 0, "p": [], "ty": ""}})
+                    if "length" in d0_.names and not (d0_.names & {"size_on_disk", "hash_block_size", "unknown_a", "unknown_b"}):
+                        acc_ok = True
         for p in Explorer(tb).explore():
-            if p.end != "loop":
+            if p.end != "loop" or nl is None:
                 continue
             for l, e in p.env.loc.items():
-                if names.get(l) == arg:
+                if l == nl:
                     e = N(e)
                     if isinstance(e, tuple) and e[0] == "bin" and e[1] == "Add" and "length" in field_names(e) and ("v", l) in (e[2], e[3]):
                         acc_ok = True
-        if not acc_ok:
-            # the same accumulation spelled with iterator adaptors: a closure of to_string adds `.length` into the
-            # variable it captured by mutable reference (for_each), or yields `.length` to sum()
+        captured_mut = set()
+        if nop is not None:
+            for _b2, _s2, st_ in tb.stmts():
+                rv_ = st_.get("rv") or {}
+                if st_["k"] == "assign" and rv_.get("k") == "agg" and rv_.get("ak") == "closure":
+                    for o_ in rv_["ops"]:
+                        r_ = tix_.resolve(o_)
+                        if r_[0] == "rv" and r_[1]["k"] == "ref" and r_[1].get("mut") is True and not r_[1]["p"]["p"]:
+                            captured_mut.add(r_[1]["p"]["l"])
+        if not acc_ok and nop is not None and (nl is not None or (captured_mut & dn_.locals)):
+            # the same accumulation spelled with for_each: a closure of to_string adds `.length` into the variable it
+            # captured by mutable reference
             for cl_ in prog.closures_of(tb.name):
                 cix_ = index_of(cl_)
                 for _b2, _s2, st_ in cl_.stmts():
@@ -269,11 +299,7 @@ def run(ctx):
                         da_, db_ = derive(cix_, rv_["a"]), derive(cix_, rv_["b"])
                         if "length" in (da_.names | db_.names) and 1 in (da_.params | db_.params):
                             acc_ok = True
-                # map(|p| p.length) feeding sum()
-                d0_ = derive(cix_, {"c": {"l": 0, "p": [], "ty": ""}})
-                if "length" in d0_.names and any((t_.get("res") or "").endswith("::sum") for _b3, t_ in tb.calls()):
-                    acc_ok = True
-        ctx.ob("LABEL", "total-is-sum-of-lengths", acc_ok, f"the number written after the label is `{arg}`, which must accumulate patches[..].length", tb.file, t.line)
+        ctx.ob("LABEL", "total-is-sum-of-lengths", acc_ok, f"the number written after the label is `{arg or 'an expression'}`, which must accumulate patches[..].length", tb.file, tb.line)
     # parse input must not still carry the label
     parses = []
     for p in Explorer(fb).explore():
